@@ -1,6 +1,7 @@
 // C16: the C and C++ wrappers are transparent.  World's constructor, destructor and query methods are replaced by
 // recording stubs (__wrap_<mangled name>: the executor redirects calls, the native twin links with -Wl,--wrap).
 #include "sym.h"
+#include <random>
 #include "world_builder/world.h"
 #include "world_builder/wrapper_c.h"
 #include "world_builder/wrapper_cpp.h"
@@ -36,8 +37,12 @@ extern "C" {
     seen.has_dir = has_output_dir;
     seen.dir_len = output_dir->size(); for (size_t i = 0; i < output_dir->size() && i < 8; ++i) seen.dir[i] = (*output_dir)[i];
     seen.seed = seed;
+    // from here on the constructed world is pre-existing memory: whatever the wrapper stores into it afterwards is recorded
+    sym_freeze(); sym_allow(&seen);
   }
   void __wrap__ZN12WorldBuilder5WorldD1Ev(World *self) { seen.destroyed = self; }
+  // accessor a wrapper could use to tamper with the constructed world (real semantics: a reference to the member)
+  std::mt19937 *__wrap__ZN12WorldBuilder5World24get_random_number_engineEv(World *self) { return &self->random_number_engine; }
   unsigned __wrap__ZNK12WorldBuilder5World22properties_output_sizeERKSt6vectorISt5arrayIjLm3EESaIS3_EE(const World *self, const std::vector<Prop> *p)
   { seen.self = self; record_props(*p); seen.announced = sym_u32("announced"); return seen.announced; }
 }
@@ -90,6 +95,7 @@ extern "C" void h_c16_create(unsigned long file_len, unsigned long dir_mode, uns
   sym_assert(seen.dir_len == dir_len, "full output directory reaches the constructor");
   for (unsigned i = 0; i < dir_len && i < seen.dir_len; ++i) sym_assert(seen.dir[i] == dir[i], "output directory characters reach the constructor");
   sym_assert(seen.seed == seed, "seed reaches the constructor");
+  sym_assert(sym_writes() == 0, "create_world does nothing to the world after constructing it (the file's own settings, e.g. its seed entry, stay in force)");
   release_world(world);
   sym_assert(seen.destroyed == world, "release_world destroys exactly that world");
   sym_reach("end");
